@@ -12,6 +12,7 @@ import (
 	"math/rand"
 	"os"
 	"strconv"
+	"sync/atomic"
 	"testing"
 	"testing/synctest"
 	"time"
@@ -52,8 +53,8 @@ type sched struct {
 	// unite: the input slices are views into ONE table the producer filled beforehand (chunks of a buffer, sent in an order that
 	// is not their address order; cap of every view reaches the end of the table); lengths are planned from Lens
 	Shared     bool  `json:"shared"`
-	SharedLens []int `json:"shared_lens"`  // optional explicit plan: lengths of the views in the order they are sent ...
-	SharedAddr []int `json:"shared_addr"`  // ... and the order of their indices in memory
+	SharedLens []int `json:"shared_lens"` // optional explicit plan: lengths of the views in the order they are sent ...
+	SharedAddr []int `json:"shared_addr"` // ... and the order of their indices in memory
 }
 
 type heldObs struct {
@@ -72,6 +73,7 @@ type rec struct {
 	Mem     int       `json:"mem"`   // identity of the backing array (Recv; unite Write); views into a shared table: one identity per view
 	RMem    int       `json:"rmem"`  // identity by address range including the spare capacity (overlapping ranges share one identity)
 	Ok      bool      `json:"ok"`    // Release: accepted
+	Later   bool      `json:"later"` // Write: the channel write itself happens one unit later, at the very instant the clock step ends
 	Now     int       `json:"now"`
 	Frac    bool      `json:"frac"` // virtual time is not a whole number of units (never on the unchanged tree)
 	InLen   int       `json:"inlen"`
@@ -339,7 +341,7 @@ type runner struct {
 	start                        time.Time
 	written, items               int
 	closedIn, closedOut          bool
-	pendingW                     *bool
+	pendingW                     *atomic.Bool
 	held                         []*holding
 	nRecv                        int
 	halted, stopCalled, deadline bool
@@ -355,7 +357,7 @@ func (r *runner) emit(e rec) {
 	e.Now = int(el / unit)
 	e.Frac = el%unit != 0
 	e.InLen = r.d.inLen()
-	if r.pendingW != nil && !*r.pendingW {
+	if r.pendingW != nil && !r.pendingW.Load() {
 		e.InLen++
 	}
 	e.OutLen = len(r.d.out)
@@ -384,7 +386,7 @@ func (r *runner) emit(e rec) {
 	r.w.Flush()
 }
 
-func (r *runner) writerBusy() bool { return r.pendingW != nil && !*r.pendingW }
+func (r *runner) writerBusy() bool { return r.pendingW != nil && !r.pendingW.Load() }
 
 func (r *runner) canWrite() bool {
 	if r.closedIn || r.writerBusy() || r.items >= r.s.MaxItems {
@@ -396,21 +398,29 @@ func (r *runner) canWrite() bool {
 	return r.d.inLen() < r.s.Cap
 }
 
-func (r *runner) doWrite(n int) {
+func (r *runner) doWrite(n int) { r.doWriteAfter(n, 0) }
+
+// doWriteAfter(n, d): the producer's write reaches the channel d from now - with d = one unit, at the very instant at which the
+// next clock step of the harness ends and (when the ticker period divides the unit) a tick fires: the discipline then finds
+// a tick and an element ready together, in either order
+func (r *runner) doWriteAfter(n int, d time.Duration) {
 	if r.d.planLen != nil {
 		n = r.d.planLen()
 	}
 	first := r.written + 1
 	r.written += n
 	r.items++
-	done := new(bool)
+	done := new(atomic.Bool)
 	send, mem := r.d.prep(first, n)
 	go func() {
+		if d > 0 {
+			time.Sleep(d)
+		}
 		send()
-		*done = true
+		done.Store(true)
 	}()
 	r.pendingW = done
-	r.emit(rec{Ev: "Write", X: first, N: n, Mem: mem})
+	r.emit(rec{Ev: "Write", X: first, N: n, Mem: mem, Later: d > 0})
 }
 
 func (r *runner) doClose() {
@@ -538,6 +548,18 @@ func (r *runner) step(tok string) bool {
 			return false
 		}
 		r.doWrite(n)
+	case 'P': // a write that lands exactly at the end of the next clock step
+		n := 1
+		if len(tok) > 1 {
+			n, _ = strconv.Atoi(tok[1:])
+		}
+		if r.s.Kind != "unite" {
+			n = 1
+		}
+		if !r.canWrite() {
+			return false
+		}
+		r.doWriteAfter(n, time.Duration(r.s.UnitNs))
 	case 'C':
 		if r.closedIn || r.writerBusy() {
 			return false
